@@ -207,6 +207,22 @@ func e2eOptions(rng *rand.Rand, cls string) []byte {
 	case "tstail":
 		n := 17 + rng.Intn(7) // not a multiple of 8
 		return opt(253, cmsg(uint64(n), 0, 0, make([]byte, n-16)))
+	case "ts0o", "ts0of", "ts0t", "ts0tf", "tsso", "tssof", "tsst", "tsstf":
+		// first control message: cmsg_len below the header size (0 resp. 1..15), level/type another (o) or a
+		// timestamp (t) message, at least 16 bytes of data; with suffix f a well-formed message follows
+		l := uint64(0)
+		if cls[2] == 's' {
+			l = uint64(1 + rng.Intn(15))
+		}
+		level, typ := uint32(2+rng.Intn(200)), uint32(rng.Intn(200))
+		if cls[3] == 't' {
+			level, typ = 1, 35
+		}
+		d := cmsg(l, level, typ, make([]byte, 8*rng.Intn(3)))
+		if cls[len(cls)-1] == 'f' {
+			d = append(d, cmsg(32, 1, 35, ts64(now.Unix(), int64(now.Nanosecond())))...)
+		}
+		return opt(253, d)
 	case "full":
 		var b []byte
 		for i := 0; i < 4; i++ {
@@ -354,15 +370,40 @@ func scBytes(rng *rand.Rand, g *dgram, p scParams) []byte {
 	cmn[8] = ptype
 	cmn[9] = byte(dt<<6 | dl<<4 | st<<2 | sl)
 	b := append(append(append(cmn, addrHdr...), pbytes...), rest...)
-	switch g.Ul {
-	case "big":
-		if proto == 17 && len(l4) >= 8 {
-			binary.BigEndian.PutUint16(b[len(b)-len(l4)+4:], uint16(len(b)+1+rng.Intn(1000)))
+	// a verifying MAC is computed over the consistent datagram, before any length is falsified
+	switch g.Eo {
+	case "auth28cok":
+		scRemac(b, spiClient)
+	case "auth28sok":
+		scRemac(b, spiServer)
+	}
+	if proto == 17 && len(l4) >= 8 {
+		lo := len(b) - len(l4) + 4 // offset of the UDP Length field
+		switch g.Ul {
+		case "zero":
+			binary.BigEndian.PutUint16(b[lo:], 0)
+		case "lt8":
+			binary.BigEndian.PutUint16(b[lo:], uint16(1+rng.Intn(7)))
+		case "small":
+			binary.BigEndian.PutUint16(b[lo:], uint16(8+rng.Intn(len(l4)-8)))
+		case "bigudp":
+			binary.BigEndian.PutUint16(b[lo:], uint16(len(l4)+1+rng.Intn(len(b)-len(l4))))
+		case "big":
+			binary.BigEndian.PutUint16(b[lo:], uint16(len(b)+1+rng.Intn(1000)))
+		case "max":
+			binary.BigEndian.PutUint16(b[lo:], 65535)
 		}
+	}
+	switch g.Pl {
 	case "small":
-		if proto == 17 && len(l4) >= 8 {
-			binary.BigEndian.PutUint16(b[len(b)-len(l4)+4:], uint16(8))
-		}
+		binary.BigEndian.PutUint16(b[6:], uint16(rng.Intn(len(rest))))
+	case "big":
+		binary.BigEndian.PutUint16(b[6:], uint16(len(b)+2000+rng.Intn(1000)))
+	case "max":
+		binary.BigEndian.PutUint16(b[6:], 65535)
+	}
+	if g.Tr == "inpl" && proto == 17 && len(l4) > 9 {
+		b = b[:len(b)-1-rng.Intn(len(l4)-9)] // cut inside the UDP payload
 	}
 	switch g.Sc {
 	case "cmnshort":
@@ -376,12 +417,6 @@ func scBytes(rng *rand.Rand, g *dgram, p scParams) []byte {
 		if len(b) > 400 {
 			b = b[:400]
 		}
-	}
-	switch g.Eo {
-	case "auth28cok":
-		scRemac(b, spiClient)
-	case "auth28sok":
-		scRemac(b, spiServer)
 	}
 	return b
 }
